@@ -531,6 +531,38 @@ func contentWriters(c *Ctx, rule string) {
 				top = top.Parent()
 			}
 			kind, okF := allowed[fnName(top)]
+			if !okF && !isExportedFn(top) {
+				// an unexported helper shared by allowed writers of one kind (the root-clearing tail of WalkDeleted / DeleteConditional)
+				kinds := map[string]bool{}
+				all := true
+				nCallers := 0
+				for _, g := range P.PkgFuncs("ctree") {
+					if P.InTestFile(g) {
+						continue
+					}
+					for _, ci := range callsIn(g) {
+						if staticCallee(ci.Common()) != top {
+							continue
+						}
+						nCallers++
+						gt := g
+						for gt.Parent() != nil {
+							gt = gt.Parent()
+						}
+						if k, ok := allowed[fnName(gt)]; ok {
+							kinds[k] = true
+						} else {
+							all = false
+						}
+					}
+				}
+				if all && nCallers > 0 && len(kinds) == 1 {
+					okF = true
+					for k := range kinds {
+						kind = k
+					}
+				}
+			}
 			okVal := false
 			v := unwrap(st.Val)
 			switch kind {
